@@ -84,14 +84,11 @@ func minimise(orig *Program, rp *Replay) *Replay {
 		}
 	}
 	// 4. individual decisions
-	for i := len(ex.applied) - 1; i >= 0 && i < len(ex.applied); i-- {
+	for _, a := range append([]Applied{}, ex.applied...) {
 		c := cfg
-		c.MaskCalls = append(append([]int{}, cfg.MaskCalls...), ex.applied[i].Call)
+		c.MaskDecisions = append(append([]string{}, cfg.MaskDecisions...), a.ID)
 		if v2, ex2, ok := fails(p, c); ok {
 			cfg, v, ex = c, v2, ex2
-			if i > len(ex.applied) {
-				i = len(ex.applied)
-			}
 		}
 	}
 
